@@ -167,12 +167,13 @@ Kinds(c, w) ==
               so too -- but only where the table says the server consumes it (stream opened, or rejected after the
               method was identified, when serve() expects the stray input).  A request refused while it is still
               being decoded is followed by nothing (an empty stream there is the orderly end of the connection).
-     "na"     header-less stream whose acceptance is set-valued at decode time: no lock-step script exists     *)
+     "na"     header-less stream whose acceptance is set-valued at decode time (malformed trace context; request
+              region in a segment whose allocation table is garbage): no lock-step script exists                *)
 ConsumesInput(s) == s \in {"protover", "signature", "shmrefresh", "dispatch"}
 Script(c, w) ==
   IF c.m = "stream_hdr" THEN "hdr"
   ELSE IF c.m = "stream_nohdr" /\ ConsumesInput(Stage(c, w))
-       THEN (IF c.extra = "trace" THEN "na" ELSE "blind")
+       THEN (IF c.extra = "trace" \/ (c.seg = "corrupt" /\ Resolved(c)) THEN "na" ELSE "blind")
   ELSE "one"
 
 WorldName(w) == (IF w.ver THEN "V" ELSE "v") \o (IF w.ext THEN "E" ELSE "e")
